@@ -6,7 +6,7 @@
 From Coq Require Import ZArith Bool Lia List.
 From DV Require Import Prelude Cost Grid Dtw DtwSpec DtwProps Engines CWps CFill CExpand CFillSim CLang CDistTie CDistSpec
   Traceback TracebackC CTrace CTraceSim CTraceSpec Prune PyDistPrune CWpsCanon CWpsCanonEu CWpsKernel CWpsValue CWpsSpec CWpsSpecEu CExpW CWpsPrune CWpsSpecB CWpsSpecBEu CWpsValueB CParts.
-From DVGen Require Import Gen_cwps Gen_cfill Gen_cwpsk Gen_cexpw Gen_cparts.
+From DVGen Require Import Gen_cwps Gen_cfill Gen_cwpsk Gen_cexpw Gen_cparts Gen_cdist.
 Import ListNotations.
 Open Scope Z_scope.
 
@@ -471,5 +471,30 @@ Proof.
   pose proof (c_wps_kernel_bounded window p m mld psi Hwin s1 s2 d Hd1 Hd2 H1 H2 Hp1 Hp2 Hp Hpsi (c_wps_bound SqEuclid md)
                 ce ced1 ced2 wps0 keep 0 HL eq_refl) as HK.
   rewrite adj_max_step_cs, adj_penalty_cs in HK. cbn [inner_val] in HK. exact HK.
+Qed.
+
+(* the value the warping-paths kernel returns (internal representation) is the value under the square root that the
+   distance-only kernel dtw_distance_ndim returns for the same settings struct (max_length_diff off, as the C
+   warping-paths kernel does not test it) *)
+Theorem c_wps_value_is_the_distance_kernels_value (Hmld : mld = 0) ce ced ced1 ced2 cub junk wps0 :
+  let W := cw_width l1 l2 window in
+  Z.of_nat (length wps0) = (l1 + 1) * W ->
+  exists v wps',
+    c_dtw_distance_ndim ce ced cub junk (concat s1) l1 (concat s2) l2 (Z.of_nat d) 0 (Fin md) mld (Fin m) false (Fin p)
+      (Z.of_nat (psi_1b usq)) (Z.of_nat (psi_1e usq)) (Z.of_nat (psi_2b usq)) (Z.of_nat (psi_2e usq)) false window
+    = (RSqrt v, true) /\
+    c_warping_paths_sq ce ced1 ced2 wps0 (concat s1) l1 (concat s2) l2 true true false (Z.of_nat d) window md m p false
+      (Z.of_nat (psi_1b usq)) (Z.of_nat (psi_1e usq)) (Z.of_nat (psi_2b usq)) (Z.of_nat (psi_2e usq)) false
+    = (RPlain v, wps', true).
+Proof.
+  intros W HL.
+  destruct (c_warping_paths_sq_spec ce ced1 ced2 wps0 true HL) as (wps' & E & _).
+  exists (bounded (c_wps_bound SqEuclid md) (dtw_value usq s1 s2)), wps'. split; [|exact E].
+  destruct psi as [[a b] [c e]].
+  pose proof (c_dtw_distance_ndim_spec window p m mld a b c e junk Hwin Hp s1 s2 d Hd1 Hd2 H1 H2 Hpsi ce ced cub 0 (Fin md) false eq_refl) as HD.
+  unfold psi4 in HD. cbn [psi_1b psi_1e psi_2b psi_2e c_to_u cs_of u_psi c_psi fst snd]. rewrite HD.
+  replace (too_long (c_to_u (cs_of window p m mld (a, b, (c, e)) SqEuclid)) s1 s2) with false
+    by (unfold too_long, c_to_u, cs_of, offz; cbn; rewrite Hmld; reflexivity).
+  unfold c_bound_sq, c_wps_bound. cbn [ceqb csq inner_val]. destruct (md =? 0); reflexivity.
 Qed.
 End FromSettings.
